@@ -238,6 +238,9 @@ impl Accept {
                         self.deregister_all(sockets);
                     }
 
+                    // the server stops listening: remove Unix domain socket files
+                    sockets.iter().for_each(|info| info.lst.cleanup());
+
                     return true;
                 }
 
